@@ -164,7 +164,9 @@ def _run_unit(args):
         return idx, st, ("HARNESS-ERROR", str(e), traceback.format_exc())
     except Exception as e:  # an escaped exception in harness code is a harness fault
         return idx, st, ("HARNESS-ERROR", "{}: {}".format(type(e).__name__, e), traceback.format_exc())
-    st.extra["unit_s_max"] = 0
+    for v in st.violations.values():
+        v["unit"] = _j(unit)
+        v["tier"] = _TIER
     return idx, st, (None, time.time() - t0, None)
 
 
@@ -189,7 +191,9 @@ def explore(check, tier, jobs=None, seed=0, progress=False):
         pool = None
     else:
         ctx = multiprocessing.get_context("fork")
-        pool = ctx.Pool(min(jobs, len(work)), maxtasksperchild=1 if getattr(check, "FRESH_PROCESS_PER_UNIT", False) else None)
+        # every unit runs in a newly forked child of this (idle) parent: what a unit observes can only depend on
+        # the scenarios of that unit, which makes "replay the whole unit" a complete history
+        pool = ctx.Pool(min(jobs, len(work)), maxtasksperchild=1)
         results = pool.imap_unordered(_run_unit, work, chunksize=1)
     done = 0
     by_idx = {}
